@@ -71,7 +71,7 @@ CHECKS = {
         text='Equiv.tla: per program TLC explores the product of the -O0 machine and the machine compiled with the optimisation under test (levels, single flags, thresholds; thorough: all 32 flag subsets) '
              'over all joint symbol cells, comparing the strict event streams (hooks with exposed outputs, yields), the status after every symbol and the final outputs, allowing exactly a one-symbol '
              'shift of between-bytes actions (and of the terminal status they produce). Compiler verdicts must also agree. Witnesses are replayed on both binaries.',
-        note='Length-bounded product search on generated and corpus programs; code-generation-only optimisations (range collapsing) are bound to the machine by C06, which runs -O2/-O3 builds.',
+        note='Length-bounded product search on generated and corpus programs and on the bounded-exhaustive family (every statement program of a compact grammar with <= 3 nodes in the thorough tier, -O0 against -O3 and alternately -O1 / -O2); code-generation-only optimisations (range collapsing) are bound to the machine by C06, which runs -O2/-O3 builds.',
         technique='TLC bisimulation-with-slack of two exported machines', thorough=True),
     'C04': dict(
         category='model_checking', design_ref='6/C04',
